@@ -1812,11 +1812,30 @@ class _CallMixin:
             if isinstance(fv, (Fn, ClsRef)):
                 fn = fv
         if star:
+            # f(*t, **d): expanded when t is a sequence of known length / d a literal dict
+            args, kwargs, ok = [], {}, True
             for a in n.args:
-                self.eval_expr(a.value if isinstance(a, ast.Starred) else a, env)
-            return self.unknown(n, "call with *args/**kwargs")
-        args = [self.eval_expr(a, env) for a in n.args]
-        kwargs = {k.arg: self.eval_expr(k.value, env) for k in n.keywords}
+                if isinstance(a, ast.Starred):
+                    v = self.eval_expr(a.value, env)
+                    if isinstance(v, Tup):
+                        args.extend(v.items)
+                    else:
+                        ok = False
+                else:
+                    args.append(self.eval_expr(a, env))
+            for k in n.keywords:
+                v = self.eval_expr(k.value, env)
+                if k.arg is not None:
+                    kwargs[k.arg] = v
+                elif isinstance(v, Map) and all(isinstance(x, str) for x in v.d):
+                    kwargs.update(v.d)
+                else:
+                    ok = False
+            if not ok:
+                return self.unknown(n, "call with *args/**kwargs of unknown length")
+        else:
+            args = [self.eval_expr(a, env) for a in n.args]
+            kwargs = {k.arg: self.eval_expr(k.value, env) for k in n.keywords}
         for ob in self.call_observers:
             ob(n, name or (n.func.attr if isinstance(n.func, ast.Attribute) else ""), args, kwargs)
         if isinstance(fn, ClsRef):
